@@ -44,6 +44,9 @@ EXTRA_SQL = [
     "select * from t where a = 1 or a = 1 or a = 1", "insert into t (a, a) values (1, 1), (1, 1)", "update t set a = a, b = a where a = a",
     "select a from t union select a from t", "select (select a from t), (select a from t) from t",
     "select case when a then a when a then a else a end, a from t", "select a, sum(a) over (partition by a, a order by a, a) from t",
+    # every kind of expression as a select-list item and below one
+    "select cast(a as int), b, c + 1 from t where cast(d as int) = 1", "select a::int, date '2020-01-01', convert(a, char), -a, not b, (select 1), f(cast(a as int)) from t",
+    "select case when a then b end, a in (1, 2), a between 1 and 2, a is null, count(distinct a), sum(a) over (order by b), (a, b), * from t",
 ]
 DUPLICATES_FROM = "select a, a, a from t"
 
@@ -57,6 +60,30 @@ def visits_impl(ast, idmap_fn):
         return None
     query_traversal(ast, rec)
     return seen
+
+
+def select_list_items(ast):
+    """ids of the nodes that ARE select-list items: the direct elements of the targets of every SELECT in the tree"""
+    from mindsdb_sql.parser.ast import ASTNode, Select
+    out, seen = set(), set()
+
+    def walk(n):
+        if id(n) in seen:
+            return
+        seen.add(id(n))
+        if isinstance(n, ASTNode):
+            if isinstance(n, Select):
+                out.update(id(t) for t in (n.targets or []))
+            for v in vars(n).values():
+                walk(v)
+        elif isinstance(n, (list, tuple)):
+            for v in n:
+                walk(v)
+        elif isinstance(n, dict):
+            for v in n.values():
+                walk(v)
+    walk(ast)
+    return out
 
 
 def coq_visits(vs):
@@ -181,6 +208,7 @@ def run(tier, seed, replay=None):
         rng.shuffle(hs)
         sqls += [(s, d) for s in hs[: (250 if tier == 'quick' else 2000)]]
     rows = []
+    flag_bad = []
     stats = {'unsupported': 0}
     for item in sqls:
         s, d = (item, 'mindsdb') if isinstance(item, str) else item
@@ -202,6 +230,11 @@ def run(tier, seed, replay=None):
         except Exception as e:
             rows.append((s, tree, None, f'{type(e).__name__}: {e}'))
             continue
+        # judge on the walker's own visits (property text: "flags exactly ... the select-list items as targets")
+        items_ = select_list_items(a2)
+        for node, tb, tg in seen:
+            if node is not None and tg != (id(node) in items_) and len(flag_bad) < 3 and s not in [x[0] for x in flag_bad]:
+                flag_bad.append((s, type(node).__name__, str(node)[:80], tg))
         vs = []
         bad = None
         for node, tb, tg in seen:
@@ -267,6 +300,9 @@ def run(tier, seed, replay=None):
                 if ok:
                     # impossible if the theorem's instance holds: all classes good yet walk <> spec
                     broken.append(BrokenTie(f'walk <> spec on a tree with only good classes: `{s}`'))
+    for s_, cn_, txt_, tg_ in flag_bad:
+        R.violation({'sql': s_, 'node': f'{cn_}: {txt_}', 'flagged_as_target': tg_, 'is_a_select_list_item': not tg_,
+                     'what': 'query_traversal does not flag exactly the select-list items as targets'})
     R.obligation(f'visit correspondence: walker model = query_traversal on {len(good_rows)} parsed statements', code3 == 0)
     stats['deviating_statements'] = code2
     # ---- replacement correspondence
